@@ -65,6 +65,7 @@ struct RunCfg
   double alpha = 1., gamma = 0.1, upper_bound = 1e6;
   bool quadratic_prior = false;
   bool kappa = false; // spatially varying penalty weights (kappa image) for the quadratic prior
+  bool rdp = false;   // OSMAPOSL only: relative difference prior instead of the quadratic one
   double beta = 0.;
   bool map_multiplicative = false; // OSMAPOSL MAP model
   bool reuse_denominator = false;
@@ -108,6 +109,24 @@ configure_prior(QuadraticPrior<float>& prior, const Problem& pr, const RunCfg& r
 {
   if (rcg.kappa)
     prior.set_kappa_sptr(kappa_image(pr));
+}
+
+// the prior of a run (a new object each time; a pure function of the run configuration)
+inline shared_ptr<GeneralisedPrior<target_type>>
+make_prior(const Problem& pr, const RunCfg& rcg)
+{
+#ifndef RECON_OSSPS
+  if (rcg.rdp)
+    {
+      shared_ptr<RelativeDifferencePrior<float>> rp(new RelativeDifferencePrior<float>(false, (float)rcg.beta, 2.f, 0.01f));
+      if (rcg.kappa)
+        rp->set_kappa_sptr(kappa_image(pr));
+      return rp;
+    }
+#endif
+  shared_ptr<QuadraticPrior<float>> qp(new QuadraticPrior<float>(false, (float)rcg.beta));
+  configure_prior(*qp, pr, rcg);
+  return qp;
 }
 
 // ------------------------------------------------------------------ explicit-P reference
@@ -191,10 +210,7 @@ run_process(const Problem& pr, RunCfg rcg, const std::string& dir, shared_ptr<ta
       shared_ptr<rc::objective_type> obj = reuse_objective ? reuse_objective : rc::make_objective(pr, dir, rcg.reuse_sens, rcg.subset_sens);
       if (rcg.quadratic_prior)
         {
-          shared_ptr<QuadraticPrior<float>> qp(new QuadraticPrior<float>(false, (float)rcg.beta));
-          configure_prior(*qp, pr, rcg);
-          shared_ptr<GeneralisedPrior<target_type>> prior(qp);
-          obj->set_prior_sptr(prior);
+          obj->set_prior_sptr(make_prior(pr, rcg));
         }
       shared_ptr<ObservedRecon> recon;
       if (recon_io && *recon_io)
@@ -256,6 +272,9 @@ gen_runcfg(Plan& p, sim::Rng& r)
   p.cfg["beta10"] = r.range(1, 30);
   p.cfg["map_mult"] = r.chance(0.5);
   p.cfg["kappa"] = r.chance(0.4);
+#ifndef RECON_OSSPS
+  p.cfg["rdp"] = r.chance(0.4);
+#endif
 #ifdef RECON_OSSPS
   p.cfg["alpha10"] = r.range(5, 15);
   p.cfg["gamma10"] = r.chance(0.3) ? 0 : r.range(1, 10);
@@ -274,6 +293,7 @@ base_runcfg(const Plan& p, const Problem& pr)
   c.start_subset = (int)(p.c("start_subset", 0) % pr.num_subsets);
   c.quadratic_prior = p.c("prior", 0) != 0;
   c.kappa = c.quadratic_prior && p.c("kappa", 0) != 0;
+  c.rdp = c.quadratic_prior && p.c("rdp", 0) != 0;
   c.beta = p.c("beta10", 5) / 10.;
   c.map_multiplicative = p.c("map_mult", 0) != 0;
 #ifdef RECON_OSSPS
